@@ -8,7 +8,7 @@ from hypothesis import strategies as st
 
 from pyoma2.functions import fdd
 
-from ..core import J, Sub, raised, rng_of, sut
+from ..core import relayout, J, Sub, raised, rng_of, sut
 
 PROPERTY = "C13"
 RULE = (
@@ -49,7 +49,19 @@ def record_case(draw, methods=("per", "cor"), nmax_all=8, nxmax=4096, min_seg=2,
         "method": draw(st.sampled_from(methods)), "nxseg": nx, "pov": pov, "nov": nov, "n_all": nall, "n_ref": nref, "N": N,
         "fs": draw(st.one_of(st.sampled_from([1.0, 100.0, 256.0]), st.floats(0.5, 2000))), "seed": draw(st.integers(0, 2**32 - 1)),
         "share": draw(st.booleans()),
+        "layout": draw(st.sampled_from(["C", "C", "F", "colslice", "rowstep", "neg"])),  # memory layout of the arrays handed to the estimator
     }
+
+
+@st.composite
+def long_case(draw):
+    """long multi-channel records (hundreds of thousands of samples, thousands of segments): monitoring data"""
+    nx = draw(st.sampled_from([128, 256, 512]))
+    nov = draw(st.sampled_from([nx // 2, (3 * nx) // 4, 0]))
+    nseg = draw(st.integers(900, 2600))
+    N = min(nx + (nseg - 1) * (nx - nov) + draw(st.integers(0, nx - 1)), 400000)
+    return {"method": "per", "nxseg": nx, "pov": nov / nx, "nov": nov, "n_all": draw(st.integers(4, 8)), "n_ref": draw(st.integers(2, 4)), "N": N,
+            "fs": draw(st.sampled_from([1.0, 100.0, 256.0])), "seed": draw(st.integers(0, 2**32 - 1)), "share": draw(st.booleans()), "layout": "C"}
 
 
 def _data(case):
@@ -73,7 +85,8 @@ def _tags(j, case):
 def _sd(case, Y, R, **over):
     kw = dict(nxseg=case["nxseg"], method=case["method"], pov=case["pov"])
     kw.update(over)
-    return sut(fdd.SD_est, Y, R, 1.0 / case["fs"], **kw)
+    lay = case.get("layout", "C")
+    return sut(fdd.SD_est, relayout(Y, lay), relayout(R, lay), 1.0 / case["fs"], **kw)
 
 
 # ---------------------------------------------------------------------------
@@ -314,7 +327,8 @@ def wiring_case(draw):
     pov = draw(st.sampled_from([0.0, 0.2, 0.6] if nx in (65, 250) else [0.5, 0.0, 0.25, 0.75]))
     return {"alg": draw(st.sampled_from(["FDD", "EFDD", "FSDD", "pLSCF"])), "nxseg": nx, "pov": pov, "method": draw(st.sampled_from(["per", "cor"])),
             "n": draw(st.integers(1, 5)), "N": nx * draw(st.integers(3, 8)) + draw(st.integers(0, 50)), "fs": draw(st.sampled_from([1.0, 100.0, 37.5])),
-            "seed": draw(st.integers(0, 2**32 - 1))}
+            "seed": draw(st.integers(0, 2**32 - 1)),
+            "again": draw(st.sampled_from([None, "params", "data", "gain"])), "pov2": draw(st.sampled_from([0.0, 0.5, 0.25])), "method2": draw(st.sampled_from(["per", "cor"]))}
 
 
 def _close_spec(A, B, rtol=1e-10):
@@ -350,6 +364,34 @@ def judge_wiring(case):
     f, Sy = np.asarray(alg.result.freq), np.asarray(alg.result.Sy)
     j.check(f.shape == np.asarray(ref[0]).shape and np.allclose(f, ref[0], rtol=1e-12, atol=0), "wiring-freq", lambda: f"result.freq[:3]={f[:3].tolist()} vs SD_est {np.asarray(ref[0])[:3].tolist()}")
     j.check(Sy.shape == np.asarray(ref[1]).shape and _close_spec(Sy, np.asarray(ref[1])), "wiring-Sy", lambda: f"result.Sy differs from fdd.SD_est(data, data, dt, nxseg={case['nxseg']}, method={case['method']!r}, pov={case['pov']})")
+    # the same algorithm object used again: after the user changed the overlap / estimator, or in a second setup holding
+    # another record of the same shape (an independent one, or the same one with another gain)
+    again = case.get("again")
+    if again is None:
+        return j
+    pov2, m2, Y2, ss2 = case["pov"], case["method"], Y, ss
+    if again == "params":
+        pov2, m2 = case["pov2"], case["method2"]
+        if case["nxseg"] % 2 == 1 or case["nxseg"] == 250:
+            pov2 = 0.0
+        alg.run_params.pov, alg.run_params.method_SD = pov2, m2
+    else:
+        Y2 = -3.0 * Y if again == "gain" else rng.normal(size=Y.shape) + 0.4 * np.roll(rng.normal(size=Y.shape), 2, axis=0)
+        ss2 = SingleSetup(Y2.copy(), fs=case["fs"])
+        ss2.add_algorithms(alg)
+    j.tag("again=" + again)
+    r = sut(ss2.run_by_name, "a")
+    if raised(r) and case["alg"] == "pLSCF" and r.type == "LinAlgError":
+        j.skip("plscf-singular")
+        return j
+    if not j.check(not raised(r), "wiring-again-raises", lambda: f"{r!r}"):
+        return j
+    ref2 = sut(fdd.SD_est, Y2.T.copy(), Y2.T.copy(), 1.0 / case["fs"], case["nxseg"], method=m2, pov=pov2)
+    if raised(ref2):
+        raise RuntimeError(f"{ref2!r}")
+    S2 = np.asarray(alg.result.Sy)
+    j.check(S2.shape == np.asarray(ref2[1]).shape and _close_spec(S2, np.asarray(ref2[1])), "wiring-again-Sy",
+            lambda: f"second use of the algorithm object ({again}): result.Sy is not the estimate of the current record with nxseg={case['nxseg']}, method={m2!r}, pov={pov2}")
     return j
 
 
@@ -366,6 +408,8 @@ SUBS = [
         rule="sum Sy_ii*df equals the windowed mean square of the mean-removed segments exactly; >= 32 segments of >= 64 samples: record mean square within 25 %"),
     Sub("gain_delay", judge_delay, delay_case(), quick=150, thorough=4000,
         rule="reference = g*x(t-d): Sy[x,ref]/Sy[x,x] = g*exp(-2 pi i f d/fs); per 5 % every interior line, cor 30 % median; opposite conjugation rejected"),
+    Sub("long_records", judge_welch, long_case(), quick=3, thorough=48,
+        rule="records of up to 400 000 samples and thousands of segments, 4..8 channels: equality with the independent Welch estimate"),
     Sub("class_wiring", judge_wiring, wiring_case(), quick=120, thorough=3000,
         rule="FDD / EFDD / FSDD / pLSCF through SingleSetup: result.freq, result.Sy equal fdd.SD_est(data, data, dt, nxseg, method, pov) for the user's run parameters"),
     Sub("sinusoid", judge_sinus, sinus_case(), quick=200, thorough=5000,
